@@ -187,8 +187,8 @@ func checkC23(r *Result, rng *rand.Rand, thorough bool) {
 		doneTraces()
 		compareSrv(r, "srv", *traces)
 	}()
-	sizes := []int{0, -5, 1, 512, 1024, 4096, 65536, 65537, 100000, 1 << 20, 1<<20 + 1, 2 << 20, 16 << 20}
-	r.Rule = "for TransferSize in {unset, negative, 1, 512, 1K, 4K, 64K, 64K+1, 100000, 1M, 1M+1, 2M, 16M} x {at construction, set at runtime} x {in-process, real record-marking TCP}: FSINFO, then READ and WRITE with counts 1, pref, max, max-1, max/2+1 and random counts up to the advertised maxima"
+	sizes := []int{0, -5, 1, 512, 1024, 4096, 65536, 65537, 100000, 1<<20 - 4097, 1<<20 - 4096, 1<<20 - 4095, 1<<20 - 100, 1<<20 - 1, 1 << 20, 1<<20 + 1, 2 << 20, 16 << 20}
+	r.Rule = "for TransferSize in {unset, negative, 1, 512, 1K, 4K, 64K, 64K+1, 100000, 1M-4097, 1M-4096, 1M-4095, 1M-100, 1M-1, 1M, 1M+1, 2M, 16M} x {at construction, set at runtime} x {in-process, real record-marking TCP}: FSINFO, then READ and WRITE with counts 1, pref, max, max-1, max/2+1 and random counts up to the advertised maxima"
 	n := 0
 	for _, tcp := range []bool{false, true} {
 		for _, runtime := range []bool{false, true} {
